@@ -464,6 +464,9 @@ func contractMentions(fc *FuncContract, prop string) bool {
 		if l.Complete != nil {
 			cs = append(cs, *l.Complete)
 		}
+		if l.Ordered != nil {
+			cs = append(cs, *l.Ordered)
+		}
 		if l.Decreases != nil {
 			cs = append(cs, *l.Decreases)
 		}
